@@ -23,7 +23,47 @@ type c04Gen struct {
 	noCO   bool     // no contentOf here (inside contentFor or fn bodies)
 	cfors  []string // contentFor names defined so far
 	nvar   int
-	wild   int // percent of wrong-kind fillers
+	wild   int         // percent of wrong-kind fillers
+	iters  []c04LoopIt // the enclosing loops whose iterable is a plain (assignable) name, innermost last
+}
+
+// c04LoopIt: an enclosing loop over a named collection (the body may change that very collection).
+type c04LoopIt struct{ name, key string }
+
+func c04IsName(s string) bool {
+	if s == "" || s == "nil" || s == "true" || s == "false" {
+		return false
+	}
+	for i := 0; i < len(s); i++ {
+		c := s[i]
+		if !(c == '_' || c == '.' || c >= 'a' && c <= 'z' || c >= 'A' && c <= 'Z' || i > 0 && c >= '0' && c <= '9') {
+			return false
+		}
+	}
+	return true
+}
+
+// mutIter generates a statement that changes the collection an enclosing loop is iterating: an entry deleted
+// (C[k] = nil deletes a map entry), every entry deleted, an entry added / overwritten, the variable re-bound.
+func (g *c04Gen) mutIter() string {
+	it := g.iters[g.r.Intn(len(g.iters))]
+	constKey := []string{`"a"`, `"b"`, `"abc"`, `"k"`, "0", "1", "2", "3", "true", "vStr", "vInt"}
+	switch g.r.Intn(8) {
+	case 0:
+		return it.name + "[" + it.key + "] = nil"
+	case 1:
+		return it.name + "[" + g.pick(constKey) + "] = nil"
+	case 2, 3:
+		return "for (dk, dv) in " + it.name + " { " + it.name + "[dk] = nil }"
+	case 4:
+		return "for (dk, dv) in " + it.name + " { if (dk != " + it.key + ") { " + it.name + "[dk] = nil } }"
+	case 5:
+		return it.name + "[" + g.pick(constKey) + "] = " + g.scalar()
+	case 6:
+		return it.name + "[" + it.key + "] = " + g.scalar()
+	default:
+		return it.name + " = " + g.scalar()
+	}
 }
 
 type c04UF struct {
@@ -266,6 +306,9 @@ func (g *c04Gen) stmtCode(d int) string {
 		}
 		return "let y0 = " + g.expr("any", 2, false)
 	case 3:
+		if len(g.iters) > 0 && g.r.Chance(50) {
+			return g.mutIter()
+		}
 		c := g.pick(c04Conts)
 		if len(g.vars) > 0 && g.r.Chance(30) {
 			c = g.pick(g.vars)
@@ -348,7 +391,12 @@ func (g *c04Gen) stmt(d int) string {
 		g.vars = append(g.vars, kn, vn)
 		g.loops++
 		g.inLoop = true
+		ni := len(g.iters)
+		if c04IsName(it) && kn != vn {
+			g.iters = append(g.iters, c04LoopIt{it, kn})
+		}
 		body := g.block(g.r.Range(1, 2), d-1)
+		g.iters = g.iters[:ni]
 		g.loops--
 		g.inLoop = oin
 		g.vars, g.cfors, g.fns = g.vars[:nv], g.cfors[:nc], g.fns[:nf]
@@ -360,9 +408,9 @@ func (g *c04Gen) stmt(d int) string {
 			ps = append(ps, fmt.Sprintf("p%d", i))
 		}
 		name := fmt.Sprintf("uf%d", len(g.fns))
-		ovars, oin, onoCO, oloops := g.vars, g.inLoop, g.noCO, g.loops
+		ovars, oin, onoCO, oloops, oiters := g.vars, g.inLoop, g.noCO, g.loops, g.iters
 		g.vars = append(append([]string{}, g.vars...), ps...)
-		g.inLoop, g.noCO, g.loops = false, true, 2
+		g.inLoop, g.noCO, g.loops, g.iters = false, true, 2, nil
 		body := ""
 		for i := g.r.Intn(3); i > 0; i-- {
 			body += g.stmtCode(1) + "\n"
@@ -370,7 +418,7 @@ func (g *c04Gen) stmt(d int) string {
 		if g.r.Chance(80) {
 			body += "return " + g.expr("any", 2, false)
 		}
-		g.vars, g.inLoop, g.noCO, g.loops = ovars, oin, onoCO, oloops
+		g.vars, g.inLoop, g.noCO, g.loops, g.iters = ovars, oin, onoCO, oloops, oiters
 		g.fns = append(g.fns, c04UF{name, np}) // visible only after its own body was generated: no recursion
 		return "<% let " + name + " = fn(" + strings.Join(ps, ", ") + ") { " + body + " } %>"
 	case 12, 13: // block helper
@@ -402,7 +450,7 @@ func (g *c04Gen) stmt(d int) string {
 
 func c04Rand(cfg Config) *Report {
 	r := c04NewRunner("C04-rand", cfg)
-	r.rep.Rule = "random well-formed programs (2-7 top-level statements; text, output and silent tags, let/assign/index-write, if/else-if/else, for over collections/iterators/helper results with break/continue nested to 2, user fn definitions and calls, block helpers, contentFor/contentOf, partial, top-level return) whose leaves come from the C04 pool (6% of the free leaves: interface-implementing values im*, mostly typed nil pointers and their carriers); holes are filled kind-directed with 10-35% wrong-kind fillers so that both the success and the error path of every frame are crossed in context; non-trivial = parses; distinct by template text"
+	r.rep.Rule = "random well-formed programs (2-7 top-level statements; text, output and silent tags, let/assign/index-write, if/else-if/else, for over collections/iterators/helper results with break/continue nested to 2 (half of the index writes inside a loop over a named collection change that very collection: delete the current / a constant / every / every other entry, insert, overwrite, re-bind), user fn definitions and calls, block helpers, contentFor/contentOf, partial, top-level return) whose leaves come from the C04 pool (6% of the free leaves: interface-implementing values im*, mostly typed nil pointers and their carriers); holes are filled kind-directed with 10-35% wrong-kind fillers so that both the success and the error path of every frame are crossed in context; non-trivial = parses; distinct by template text"
 	n := cfg.N(25000, 600000)
 	var mu sync.Mutex
 	c04Chunked(r.rep, cfg, 8, n, func(lo, hi int, rep *Report) {
